@@ -81,6 +81,22 @@ func (monC14) TaskEnd(s *Sim, t *Task) {
 			s.Violate("C14", "status-write-lost", "eds", "%s: its status write failed (%v) but the reconcile reported success and no requeue", t.Label(), c.Err)
 		}
 	}
+	if t.Ctrl == CtrlEDS && t.Successful() {
+		// "after each reconcile the status equals the documented function of its replica sets' statuses":
+		// a reconcile of an existing, defaulted object that reports success without having looked at the
+		// replica sets has not maintained anything
+		if v := t.View(); v.EDS != nil && edsv1.IsDefaultedExtendedDaemonSet(v.EDS) && !v.ERSRead {
+			writes := 0
+			for _, c := range t.Calls {
+				if c.IsWrite() {
+					writes++
+				}
+			}
+			if writes == 0 {
+				s.Violate("C14", "status-not-maintained", "", "%s reported success without reading the replica sets (deletionTimestamp set: %v): the status keeps whatever it said before", t.Label(), v.EDS.DeletionTimestamp != nil)
+			}
+		}
+	}
 	switch t.Ctrl {
 	case CtrlERS:
 		if !t.Clean() {
